@@ -72,40 +72,82 @@ theorem div_call {i : Nat} {p : Prog} {st : PState} (hi : cfg.env[i]? = some p) 
   | zero => exact run_zero _ _ _
   | succ k => rw [run_call, hi]; exact hp k
 
-/-! ### the diverging parse: `WHITESPACE = _{ POP_ALL }`, `r = _{ PUSH("a") ~ "b" ~ "c" }` on `"abc"` -/
+theorem div_optional {p : Prog} {st : PState} (hi : incCall st = some st) (hp : Div cfg p st) :
+    Div cfg (.optional p) st := by
+  intro F
+  cases F with
+  | zero => exact run_zero _ _ _
+  | succ k => rw [run_optional, hi]; dsimp only; rw [hp k]
+
+/-! ### the diverging parse: `r = _{ PUSH("a") ~ (#t = POP_ALL)? ~ "b" ~ POP_ALL* }` on `"ab"`, WITHOUT
+`grammar-extras`
+
+(The former example `WHITESPACE = _{ POP_ALL }  r = _{ PUSH("a") ~ "b" ~ "c" }` no longer diverges: the
+restorer now wraps a stack-modifying `WHITESPACE`/`COMMENT` body in `restore_on_err`, see
+`wsPopAll` below and `C01.ws_popall_example_agrees`.) -/
 
 def cexDivSrc : List Rule :=
-  [⟨"WHITESPACE", .silent, .ident "POP_ALL"⟩,
-   ⟨"r", .silent, .seq (.push (.str ['a'])) (.seq (.str ['b']) (.str ['c']))⟩]
+  [⟨"r", .silent, .seq (.push (.str ['a'])) (.seq (.opt (.nodeTag (.ident "POP_ALL") ['t']))
+    (.seq (.str ['b']) (.rep (.ident "POP_ALL"))))⟩]
 
 def cexDiv : List ORule :=
-  [⟨"WHITESPACE", .silent, .ident "POP_ALL"⟩,
-   ⟨"r", .silent, .seq (.push (.str ['a'])) (.seq (.str ['b']) (.str ['c']))⟩]
+  [⟨"r", .silent, .seq (.push (.str ['a'])) (.seq (.opt (.nodeTag (.ident "POP_ALL") ['t']))
+    (.seq (.str ['b']) (.rep (.restoreOnErr (.ident "POP_ALL")))))⟩]
 
-theorem cexDiv_opt (b : Bool) : optimizeWith b true cexDivSrc = some cexDiv := by cases b <;> decide
+/-- without `grammar-extras` the restorer does not look inside `#t = POP_ALL`: the `?` operand stays
+unwrapped (the `*` operand is wrapped). -/
+theorem cexDiv_opt : optimizeWith false true cexDivSrc = some cexDiv := by decide
 
 def divEnv : Env := { rules := cexDiv, uni := fun _ => none }
 def divCfg : Cfg := { memchr := true, env := lowerAll .vm divEnv }
 
-/-- the states the parse goes through after the first `skip` has emptied the stack. -/
-def divSt (pos : Nat) (lens : List (Nat × Nat)) : PState :=
-  { PState.new ['a', 'b', 'c'] none false with pos := pos, stack := ⟨[], [], lens⟩ }
+/-- the state of a successful outcome. -/
+def okSt (o : Out) : PState := match o with | .ok s => s | _ => PState.new [] none false
 
-/-- on an empty stack `WHITESPACE = POP_ALL` succeeds without consuming anything … -/
-theorem div_ws (k pos : Nat) (lens : List (Nat × Nat)) :
-    run divCfg (k + 3) (.call 0) (divSt pos lens) = .ok (divSt pos lens) := rfl
+def divPush : Prog := .andThen (.stackPush (.matchString ['a'])) .ok
+def divOpt : Prog := .andThen (.optional (.andThen .stackMatchPop (.tagNode ['t']))) .ok
+def divB : Prog := .andThen (.matchString ['b']) .ok
+def divPop : Prog := .restoreOnErr .stackMatchPop
+def divBody : Prog := .sequence (.andThen .ok divPop)
+def divS0 : PState := PState.new ['a', 'b'] none false
+/-- after `PUSH("a")`: stack `["a"]`. -/
+def divS1 : PState := okSt (run divCfg 10 divPush (checkpoint divS0))
+/-- after `(#t = POP_ALL)?`: the failed, unrestored `POP_ALL` has emptied the stack. -/
+def divS2 : PState := okSt (run divCfg 10 divOpt (checkpoint divS1))
+def divS3 : PState := okSt (run divCfg 10 divB (checkpoint divS2))
+/-- after the first `POP_ALL` of `POP_ALL*`: on the empty stack it succeeds without consuming … -/
+def divS4 : PState := okSt (run divCfg 10 divPop (checkpoint divS3))
 
-/-- … so the second implicit `skip` never ends. -/
-theorem cexDiv_diverges : Div divCfg (entry divEnv "r") (PState.new ['a', 'b', 'c'] none false) := by
-  refine div_call (p := .sequence (.andThen (.andThen (.stackPush (.matchString ['a'])) (.repeat_ (.call 0)))
-      (.sequence (.andThen (.andThen (.matchString ['b']) (.repeat_ (.call 0))) (.matchString ['c'])))))
+theorem divS2_stack : divS2.stack.cache = [] ∧ divS1.stack.cache = [['a']] := by decide +kernel
+
+/-- … and so does every further iteration: `POP_ALL*` never ends. -/
+theorem cexDiv_diverges : Div divCfg (entry divEnv "r") (PState.new ['a', 'b'] none false) := by
+  refine div_call (p := .sequence (.andThen divPush (.sequence (.andThen divOpt (.sequence (.andThen divB
+    (.sequence (.optional (.andThen divPop (.repeat_ divBody))))))))))
     rfl ?_
   refine div_sequence rfl ?_
-  refine div_andThen_right (s1 := divSt 1 [(0, 0)]) ⟨10, rfl⟩ ?_
+  refine div_andThen_right (s1 := divS1) ⟨10, rfl⟩ ?_
   refine div_sequence rfl ?_
-  refine div_andThen_left ?_
-  refine div_andThen_right (s1 := divSt 2 [(0, 0), (0, 0)]) ⟨1, rfl⟩ ?_
-  exact div_repeat rfl (div_repLoop ⟨3, div_ws 0 _ _⟩)
+  refine div_andThen_right (s1 := divS2) ⟨10, rfl⟩ ?_
+  refine div_sequence rfl ?_
+  refine div_andThen_right (s1 := divS3) ⟨10, rfl⟩ ?_
+  refine div_sequence rfl ?_
+  refine div_optional rfl ?_
+  refine div_andThen_right (s1 := divS4) ⟨10, rfl⟩ ?_
+  exact div_repeat rfl (div_repLoop ⟨10, rfl⟩)
+
+/-! ### the former diverging parse `WHITESPACE = _{ POP_ALL }  r = _{ PUSH("a") ~ "b" ~ "c" }` on `"abc"` -/
+
+def wsPopAllSrc : List Rule :=
+  [⟨"WHITESPACE", .silent, .ident "POP_ALL"⟩,
+   ⟨"r", .silent, .seq (.push (.str ['a'])) (.seq (.str ['b']) (.str ['c']))⟩]
+
+/-- the restorer wraps the whole `WHITESPACE` body. -/
+def wsPopAll : List ORule :=
+  [⟨"WHITESPACE", .silent, .restoreOnErr (.ident "POP_ALL")⟩,
+   ⟨"r", .silent, .seq (.push (.str ['a'])) (.seq (.str ['b']) (.str ['c']))⟩]
+
+theorem wsPopAll_opt (b : Bool) : optimizeWith b true wsPopAllSrc = some wsPopAll := by cases b <;> decide
 
 /-! ### the "undefined rule" slot: a reference to an undefined name in a grammar with `N + 1` rules,
 `3 * N + 1 = 1000000000` (stated for a variable `N` so that nothing ever evaluates the rule list) -/
